@@ -7,7 +7,9 @@ import json, sys
 L = "lemma"; G = "locally-guarded"; U = "unreachable-from-roots"; S = "sdk-invariant"; N = "not-partial"; V = "validator-only"
 CODEC = "the value was decoded from the wire / the store by the same registered codec (or is a plain proto message), so re-encoding / decoding cannot fail"
 RULES = [
- # --- teleport/types
+ # --- cosmos-sdk callers of the bank adapter (kind callee-error-panics-in-caller)
+ ("cosmos-sdk/x/gov/keeper/deposit.go", "DeleteDeposits", "callee-error-panics-in-caller", "error guards: NONE", L, "TM.GovCycle.adapter_burn_no_error_on_valid_or_empty + gov_endblock_no_panic: the adapter adds no check of its own; every recorded deposit is valid-or-EMPTY (msgCoinsOk_ok, upsert_spec) and covered by the gov module account (Inv)"),
+ ("cosmos-sdk/x/staking/keeper/slash.go", "", "callee-error-panics-in-caller", "error guards: NONE", L, "TM.GovCycle.staking_burn_no_panic / slash_no_panic: burn*Tokens skip non-positive amounts, a single positive bond-denom coin is valid, the adapter adds no check; pool coverage is the staking module's own invariant (sdk-invariant)"),
  ("types/events.go", "EmitTypedEvent", "index", "event.Attributes[", G, "i, j are supplied by sort.SliceStable and range over len(event.Attributes)"),
  # --- bsc
  ("bsc/types/client_state.go", "ClientState.Initialize", "div", "% m.Epoch", L, "TM.NoPanic.bsc_init_guarded (ClientState.Validate rejects Epoch = 0 — fixes/C15-bsc-clientstate-validate)"),
